@@ -5,6 +5,7 @@ import WuffsVerif.Model.JpegIdctRange
 import WuffsVerif.Model.HashSpec
 import WuffsVerif.Model.CoroFrame
 import WuffsVerif.Gen.C09_StdFields
+import WuffsVerif.Model.PngFilterSse
 /-! Line driver for C09.  Ops:
   init <options> <selfNull 0|1> <sizeof_star_self> <wuffs_version> <prior> <obj…>
         prior = z | c:<hh> | r:<seed> | q:<seed> (r with zero magic bytes) | h:<hex>
@@ -22,6 +23,9 @@ import WuffsVerif.Gen.C09_StdFields
      -> v <decimal>
   coroframe <func> loads=<n> saves=<n> samevars=<b> guarded=<b> atsuspend=<b> pwrites=<b> scratch=<b>
      -> conforms | violates:<condition>      (shape of a generated coroutine function, Model/CoroFrame.lean)
+  pngfilter <f> <d> <curr hex> <prev hex|->   (PNG row filter f = 1|3|4 with distance d = 3|4; prev `-` = first row)
+     -> p=<filtered row, portable fallback> s=<filtered row, SSE4.2 twin (emulation)>
+  pngfilterp … -> p=<…>
   partition wuffs_<pkg>__<struct> impl=<f,…|-> data=<f,…|->     (f_* members of the generated C struct)
      -> ok | mismatch:… | unknown-struct      (against Gen/C09_StdFields.lean, the parsed AST)
 -/
@@ -239,6 +243,19 @@ def partitionOp (l : List String) : String :=
     | _, _ => "bad-op"
   | _ => "bad-op"
 
+open WuffsVerif.PngFilter in
+def pngFilterOp (withSse : Bool) (l : List String) : String :=
+  match l with
+  | [fs, ds, c, p] =>
+    match fs.toNat?, ds.toNat?, fromHex c, fromHex p with
+    | some f, some d, some cb, some pb =>
+      let curr := cb.toArray
+      let prev := pb.toArray
+      let rp := toHex (runRowPortable f d curr prev)
+      if withSse then s!"p={rp} s={toHex (runRowSse f d curr prev)}" else s!"p={rp}"
+    | _, _, _, _ => "bad-op"
+  | _ => "bad-op"
+
 def step (l : List String) : String :=
   match l with
   | "init" :: rest => initOp rest
@@ -250,6 +267,8 @@ def step (l : List String) : String :=
   | "crc64" :: rest => hashOp HashSpec.crc64 rest
   | "coroframe" :: rest => coroOp rest
   | "partition" :: rest => partitionOp rest
+  | "pngfilter" :: rest => pngFilterOp true rest
+  | "pngfilterp" :: rest => pngFilterOp false rest
   | "adler32x" :: rest => hashSegOp HashSpec.adler32 rest
   | "crc32x" :: rest => hashSegOp HashSpec.crc32 rest
   | "crc64x" :: rest => hashSegOp HashSpec.crc64 rest
